@@ -274,6 +274,10 @@ func (f *MemFile) ReadAt(b []byte, off int64) (n int, err error) {
 	nd.mu.RLock()
 	defer nd.mu.RUnlock()
 
+	if len(b) == 0 {
+		return 0, nil
+	}
+
 	if int(off) > len(nd.data) {
 		return 0, io.EOF
 	}
